@@ -22,9 +22,10 @@ def sh(cmd, timeout, cwd=None):
 
 def main():
     only = sys.argv[1:]
-    out_path = "/verif/selftest/seeded_results.json"
+    root = os.environ.get("SEEDED_ROOT", "/tmp/wt")
+    out_path = os.environ.get("SEEDED_OUT", "/verif/selftest/seeded_results.json")
     results = json.load(open(out_path)) if os.path.exists(out_path) else {}
-    for wt in sorted(glob.glob("/tmp/wt/C*")):
+    for wt in sorted(glob.glob(root + "/C*")):
         cid = os.path.basename(wt)
         for n in (1, 2):
             key = "%s-%d" % (cid, n)
